@@ -738,5 +738,5 @@ def run(ctx):
     nc = r_pruned_consumers(ctx)
     from . import c06
     c06.r_opsem(ctx, only=("Function",))      # the weights of a composite are what the operators make them
-    ctx.floor("family constructors", n, 24)
-    ctx.floor("consumers of composite weights", nc, 3)
+    ctx.floor("family constructors", n, 20)
+    ctx.floor("consumers of composite weights", nc, 2)
